@@ -251,8 +251,22 @@ def run_tags(ctx):
         f24zu = b"PRIV" + syncsafe(len(uzb)) + b"\x00\x0b" + uzb + b"TIT2" + syncsafe(len(t)) + b"\x00\x00" + t
         uns24z = b"ID3\x04\x00\x00" + syncsafe(len(f24zu)) + f24zu
         uns24zg = b"ID3\x04\x00\x80" + syncsafe(len(f24zu)) + f24zu
-        for name, a, b in (("v2.3", plain23, uns23), ("v2.4", plain24, uns24), ("v2.2", plain22, uns22),
-                           ("v2.4-compressed", plain24, uns24z), ("v2.4-compressed+tagflag", plain24, uns24zg)):
+        # the unsynchronisation flag next to the other header flags: a real extended header (part of the unsynchronised
+        # area in v2.3), the extended-header flag of taggers that set it without writing one (a frame id follows the
+        # header directly; the reader detects that), the experimental flag
+        def hdr(ver, flags, body):
+            return b"ID3" + bytes([ver, 0, flags]) + syncsafe(len(body)) + body
+        ext23 = struct.pack(">LHL", 6, 0, 0)
+        ext24 = syncsafe(6) + b"\x01\x00"
+        more = [("v2.3+exthdr", hdr(3, 0x40, ext23 + frames23), hdr(3, 0xC0, ref_unsynch(ext23 + frames23))),
+                ("v2.3+exthdr-flag-only", hdr(3, 0x40, frames23), hdr(3, 0xC0, u)),
+                ("v2.3+experimental", hdr(3, 0x20, frames23), hdr(3, 0xA0, u)),
+                ("v2.3+exthdr-flag-only+experimental", hdr(3, 0x60, frames23), hdr(3, 0xE0, u)),
+                ("v2.4+exthdr", hdr(4, 0x40, ext24 + f24p), hdr(4, 0xC0, ext24 + f24u)),
+                ("v2.4+exthdr-flag-only", hdr(4, 0x40, f24p), hdr(4, 0xC0, f24u)),
+                ("v2.4+experimental", hdr(4, 0x20, f24p), hdr(4, 0xA0, f24u))]
+        for name, a, b in [("v2.3", plain23, uns23), ("v2.4", plain24, uns24), ("v2.2", plain22, uns22),
+                           ("v2.4-compressed", plain24, uns24z), ("v2.4-compressed+tagflag", plain24, uns24zg)] + more:
             def load(x):
                 tag = ID3(io.BytesIO(x), translate=False)
                 return sorted((k, repr(v)) for k, v in tag.items())
